@@ -237,16 +237,61 @@ def run(ctx):
             ctx.anchor_lost('C01.reach', suf + ': pop of the work stack')
             continue
         has_role = nm != 'expected'
+        sites = []      # (block, weight kinds, probability source, positivity guard or None)
         for bi, t, e in q.calls_named(f, 'push'):
             item = strip_refs(e[2][1])
             if item[0] != 'agg' or item[1] != 'tuple' or len(item[2]) != 2:
                 continue
+            kinds, probsrc = classify_weight(f, item[2][1], popped)
+            pr = None
+            pw = e4.try_poly(item[2][1])
+            for a in (list(pw)[0] if pw else ()):
+                if a[0] == 'val' and q.elem_of(a[1]) is not None:
+                    pr = a[1]
+            pos = pr is not None and any(e2.cond_positive(c, pr) for c in f.conds(bi))
+            sites.append((bi, kinds, probsrc, pos))
+        # the same push written as `queue.extend(probs.iter().zip(children)[.filter(P)].map(|(prob, next)| (next, prob * reach)))`
+        for bi, t, e in q.calls_named(f, 'extend'):
+            chain = strip_refs(e[2][1]) if len(e[2]) > 1 else None
+            mp = q.find_sub(chain, lambda x: q.is_call(x, 'map')) if chain is not None else None
+            if mp is None or len(mp[2]) < 2:
+                continue
+            cf, _ = q.closure_of(lib, mp[2][1])
+            if cf is None:
+                continue
+            r = strip_refs(q.ret_expr(cf))
+            if r[0] != 'agg' or r[1] != 'tuple' or len(r[2]) != 2:
+                continue
+            ctx.touch(cf)
+            ip = q.item_param(cf)
+            w = q.resolve_captures(lib, cf, r[2][1]) if cf.is_closure else r[2][1]
+            pw = e4.try_poly(w)
+            kinds, probsrc = None, None
+            if pw is not None and len(pw) == 1 and list(pw.values()) == [1.0]:
+                kinds = []
+                for a in list(pw)[0]:
+                    x = a[1] if a[0] == 'val' else None
+                    if x is not None and q.find_sub(x, lambda s_: same_call(s_, popped)) is not None and strip_refs(x)[0] == 'field' and strip_refs(x)[2] == '1':
+                        kinds.append('reach')
+                    elif x is not None and q.find_sub(x, lambda s_: s_[0] == 'param' and s_[1] == ip) is not None:
+                        kinds.append('prob')
+                    else:
+                        kinds.append('?')
+                kinds = sorted(kinds)
+                z = q.find_sub(mp[2][0], lambda x: q.is_call(x, 'zip'))
+                probsrc = strip_refs(z[2][0]) if z is not None else None
+            fl = q.find_sub(mp[2][0], lambda x: q.is_call(x, 'filter'))
+            pos = False
+            if fl is not None and len(fl[2]) > 1:
+                pred, pcf, _ = q.closure_pred(lib, fl[2][1])
+                pos = pred is not None and pred[0] == 'Gt' and pred[2] is not None and is_const(pred[2], 0)
+            sites.append((bi, kinds, probsrc, pos))
+        for bi, kinds, probsrc, pos_guard in sites:
             cs = f.conds(bi)
             var = [c['variants'][0] for c in cs if c['kind'] == 'variant' and c['variants'][0] in ('Chance', 'Player', 'Terminal') and len(c['variants']) == 1]
             if not var:
                 continue     # the initial push of the start node
             n_push += 1
-            kinds, probsrc = classify_weight(f, item[2][1], popped)
             if var[-1] == 'Chance':
                 role = 'chance'
             elif not has_role:
@@ -269,12 +314,7 @@ def run(ctx):
                         'the weight pushed for a child is parent weight * edge probability at chance / fixed-strategy nodes and the parent weight at the deviating player\'s nodes; probabilities come from the entry of the node\'s own infoset',
                         f.where(bi), 'role %s: weight factors %s, probability from own infoset entry: %s' % (role, kinds, own), breaks='expected payoffs / counterfactual weights are wrong on any non-trivial tree')
             if role == 'fixed':
-                pr = None
-                pw = e4.try_poly(item[2][1])
-                for a in (list(pw)[0] if pw else ()):
-                    if a[0] == 'val' and q.elem_of(a[1]) is not None:
-                        pr = a[1]
-                pos = pr is not None and any(e2.cond_positive(c, pr) for c in cs)
+                pos = bool(pos_guard)
                 ctx.verdict(pos, 'C01.positive-filter', 'C01.positive-filter:%s' % nm, 'below a fixed-strategy node a child is pushed only under the strict `prob > 0.0` (zero-reach subtrees register no infoset nodes: total reach stays positive)',
                             f.where(bi), 'strict positivity test on the pushed probability dominates: %s' % pos, breaks='profiles that make subtrees unreachable give 0/0 = NaN best-response values')
     if n_push < 7:
